@@ -6,10 +6,13 @@ cd /repo || exit 9
 if ! git diff --quiet; then echo "/repo has uncommitted changes"; exit 9; fi
 git apply "$P" || { echo "patch does not apply: $P"; exit 9; }
 for id in "$@"; do
+  # the evidence file of record comes from runs against /repo itself: keep it across the mutant run
+  cp "/verif/evidence/$id.json" "/tmp/evidence.$id.$$" 2>/dev/null
   out=$(cd /verif && VERIF_BUDGET_S=${VERIF_BUDGET_S:-100} bin/check "$id" quick 2>&1); rc=$?
   if [ $rc -eq 1 ] && echo "$out" | grep -q "^VIOLATION property=$id"; then
     echo "DETECTED $id $(echo "$out" | grep -c '^VIOLATION') keys: $(echo "$out" | grep '^VIOLATION' | sed 's/.*key=\([^ ]*\).*/\1/' | head -4 | tr '\n' ' ')"
   elif [ $rc -eq 0 ]; then echo "MISSED   $id"
   else echo "BROKEN   $id rc=$rc: $(echo "$out" | tail -3 | tr '\n' ' ' | cut -c1-300)"; fi
+  [ -f "/tmp/evidence.$id.$$" ] && mv "/tmp/evidence.$id.$$" "/verif/evidence/$id.json"
 done
 git -C /repo checkout -- . ; git -C /repo clean -fdq v8 2>/dev/null
